@@ -1,7 +1,7 @@
 #!/usr/bin/env python3
 """Confirm and evaluate one seeded change.
 
-usage: seeded_eval.py <ID> <i> [--checks C01,C06,...] [--no-confirm]
+usage: seeded_eval.py <ID> <i> [--checks C01,C06,...] [--no-confirm] [--base /tmp/wt2] [--as 3]
 
  1. in the scratch worktree /tmp/wt/<ID> (reset to /repo's HEAD): apply patch<i>.diff, run the
     repository's test suite (must pass), paste/run the demonstration (must FAIL with the change
@@ -20,13 +20,17 @@ def main():
     pid, i = sys.argv[1], sys.argv[2]
     checks = None
     confirm = True
+    base = '/tmp/wt'
+    save_as = None
     args = sys.argv[3:]
     while args:
         a = args.pop(0)
         if a == '--checks': checks = args.pop(0).split(',')
         elif a == '--no-confirm': confirm = False
-    out = f'/tmp/wt/{pid}-out'
-    wt = f'/tmp/wt/{pid}'
+        elif a == '--base': base = args.pop(0)          # directory holding <ID>/ and <ID>-out/
+        elif a == '--as': save_as = args.pop(0)         # index under which it is kept in /verif/seeded
+    out = f'{base}/{pid}-out'
+    wt = f'{base}/{pid}'
     patch = f'{out}/patch{i}.diff'
     demo = next((f'{out}/demo{i}.{e}' for e in ('rs', 'sh') if os.path.exists(f'{out}/demo{i}.{e}')), None)
     meta_in = json.load(open(f'{out}/meta{i}.json'))
@@ -92,7 +96,7 @@ def main():
         sh('git -C /verif checkout -- evidence')
     res['detection'] = det
     res['detected_by'] = [c for c, d in det.items() if d['exit'] == 1]
-    d = f'/verif/seeded/{pid}-{i}'
+    d = f'/verif/seeded/{pid}-{save_as or i}'
     os.makedirs(d, exist_ok=True)
     shutil.copy(patch, f'{d}/patch.diff')
     if demo: shutil.copy(demo, f'{d}/demo.' + demo.rsplit('.', 1)[1])
@@ -107,6 +111,6 @@ def main():
         res['detection'] = old
         res['detected_by'] = [c for c, dd in old.items() if dd['exit'] == 1]
     json.dump(res, open(f'{d}/meta.json', 'w'), indent=1)
-    print(pid, i, 'confirmed=%s' % res.get('confirmed'), 'detected_by=%s' % res['detected_by'], {c: v['exit'] for c, v in res['detection'].items()})
+    print(pid, save_as or i, 'confirmed=%s' % res.get('confirmed'), 'detected_by=%s' % res['detected_by'], {c: v['exit'] for c, v in res['detection'].items()})
 
 main()
